@@ -28,7 +28,8 @@
                             ALL weights are positive, for every n ≥ 2 and every interval, and none is smaller than the end weights:
                             every entry of h = v + g but the first is ≤ 0, so replacing each cosine of the inverse DFT by 1 can
                             only lower it, and Σ h = s·wcc0
-  partial (DESIGN §7 C18): exactness to degree n-1 for all n is not proved (per-n oracle in the harness).
+  * `cc_pts_reflect`, `cc_exact_linear`   nodes symmetric about the midpoint; the rule is exact for linear functions for every n ≥ 2
+  partial (DESIGN §7 C18): exactness to degree n-1 (beyond degree 1) for all n is not proved (per-n oracle in the harness).
 -/
 import MudProof.RealInst
 import MudModel.Quadrature
@@ -862,5 +863,52 @@ theorem cc_wts_pos_all (n : ℕ) (hn : 2 ≤ n) (a b : ℝ) (hab : a < b) (i : F
   · subst h2
     rw [cc_wts_two]; linarith
   · exact cc_wts_pos n (by omega) a b hab i
+
+/-! ### Clenshaw–Curtis: exact for linear functions, for every n -/
+
+/-- the Clenshaw–Curtis nodes are symmetric about the midpoint: `x_i + x_{n-1-i} = a + b` -/
+theorem cc_pts_reflect (n : ℕ) (hn : 2 ≤ n) (a b : ℝ) (i : Fin n) :
+    ccPts n Real.pi a b i + ccPts n Real.pi a b ⟨n - 1 - i.val, by omega⟩ = a + b := by
+  have hi := i.isLt
+  have hs : ((n - 1 : ℕ) : ℝ) ≠ 0 := by
+    have : (0 : ℝ) < ((n - 1 : ℕ) : ℝ) := by exact_mod_cast (by omega : 0 < n - 1)
+    exact this.ne'
+  simp only [ccPts, cos_real, frac_real]
+  have e : n - 1 - (n - 1 - i.val) = i.val := by omega
+  rw [e]
+  have hang : Real.pi * ((n - 1 - i.val : ℕ) : ℝ) / ((n - 1 : ℕ) : ℝ) = Real.pi - Real.pi * ((i.val : ℕ) : ℝ) / ((n - 1 : ℕ) : ℝ) := by
+    rw [Nat.cast_sub (by omega)]
+    field_simp
+  rw [hang, Real.cos_pi_sub]
+  push_cast; ring
+
+/-- **the Clenshaw–Curtis rule is exact for linear functions, for every `n ≥ 2`** (weights and nodes are both symmetric about the
+    midpoint): `Σ w_i x_i = (b² - a²)/2` -/
+theorem cc_exact_linear (n : ℕ) (hn : 2 ≤ n) (a b : ℝ) :
+    ∑ i : Fin n, ccWts n (ccIdft (n - 1) Real.pi (ccH (n - 1))) a b i * ccPts n Real.pi a b i = (b ^ 2 - a ^ 2) / 2 := by
+  set w := ccWts n (ccIdft (n - 1) Real.pi (ccH (n - 1))) a b with hw
+  set x := ccPts n Real.pi a b with hx
+  set S := ∑ i : Fin n, w i * x i with hS
+  -- reindex by the reflection i ↦ n-1-i
+  have hrev : S = ∑ i : Fin n, w i * (a + b - x i) := by
+    have h1 : S = ∑ i : Fin n, w (Fin.rev i) * x (Fin.rev i) := by
+      rw [hS]; exact (Equiv.sum_comp Fin.revPerm (fun i => w i * x i)).symm
+    rw [h1]
+    apply Finset.sum_congr rfl
+    intro i _
+    have hr : Fin.rev i = ⟨n - 1 - i.val, by have := i.isLt; omega⟩ := by
+      apply Fin.ext; simp [Fin.rev]; omega
+    rw [hr]
+    have h2 : w ⟨n - 1 - i.val, by have := i.isLt; omega⟩ = w i := (cc_wts_symmetric n hn a b i).symm
+    have h3 : x i + x ⟨n - 1 - i.val, by have := i.isLt; omega⟩ = a + b := cc_pts_reflect n hn a b i
+    rw [h2]
+    congr 1
+    linarith
+  have hsum : ∑ i : Fin n, w i = b - a := cc_wts_sum n hn a b
+  have : S = (a + b) * (b - a) - S := by
+    conv_lhs => rw [hrev]
+    simp only [mul_sub, Finset.sum_sub_distrib, ← Finset.sum_mul, hsum]
+    ring
+  linarith
 
 end Mud.C18
